@@ -40,6 +40,16 @@ into a handler that never returns (H.err_flows); the detect table is built per (
 the variant decided in the phase or in a helper's return table (H.decided_by); "written iff provided" is one function for
 plan / launch.toml / store.toml (provided_write: decision at any level of the write's call chain); mandatory variables read
 by a loop over a literal table zipped with its slots are read row by row (H.unroll_zip).
+Spelling independence (robustness round 4): the calls into the phases are PHASE effects of libcnb_runtime — the dispatch may
+live in libcnb_runtime or in a private function reached from it (`exit(run(buildpack))`), and is judged in its own function
+under the decisions of every level of the chain, parameters read as what the chain passes; an exit code is a Row wherever it
+was chosen: at the exit, in the return table of a private function whose result (or whose Ok / Err payload: a gate returning
+Result<(), i32>) is handed to exit (H.code_rows); the phase result is also what a private function returns that only hands it
+on (nf); "this failure cannot end in the helper's success" is `?` / unwrap / return or a match whose success sites all lie on
+the Ok side (H.ok_needed); paths built by to_path_buf + PathBuf::push are joins, text appended with OsString / String pushes
+is not (H.PathPushes).  New necessary conditions found on the way: libcnb_runtime never returns to `main` (status 0), also not
+through functions that cannot come back (H.can_return), and every way out on the Err side of the phase result lies behind
+on_error (runtime/on_error/always).
 Not decided: that exit terminates, byte-exact file contents, behaviour of the user's detect/build.
 """
 from .lib.discard import result_fates, verdict, diverges
@@ -73,6 +83,20 @@ def bad_code(v):
 
 def alts(v):
     return list(v[1]) if v[0] == 'phi' else [v]
+
+
+class Row:
+    """one way the process can end outside the phases: the exit call, the kind and value of its code, the decisions
+    under which this value is the code, the error-handler closure that produced it (or None), the place (Fn, block) where
+    the value was chosen (the exit itself, or a `return CODE` of the private function whose result is handed to exit) and
+    the EXIT effect it was read from"""
+    __slots__ = ('exit', 'kind', 'value', 'conds', 'via', 'site', 'eff')
+
+    def __init__(self, exit_call, kind, value, conds, via, site, eff):
+        self.exit, self.kind, self.value, self.conds, self.via, self.site, self.eff = exit_call, kind, value, conds, via, site, eff
+
+    def __getitem__(self, i):
+        return (self.exit, self.kind, self.value, self.conds, self.via, self.site, self.eff)[i]
 
 
 def must_pass(fn, frm, to, via):
@@ -136,19 +160,83 @@ def run(ctx, rep):
         rep.analysed(f)
     w = lambda f: '%s:%d' % (f.file, f.line)
     supported = sl.const_init('libcnb::LIBCNB_SUPPORTED_BUILDPACK_API')
-    # ---- R1 / R2 --------------------------------------------------------------------------------------
-    phase_calls = {'detect': [c for c in rt.calls if c.name == RD], 'build': [c for c in rt.calls if c.name == RB]}
-    gate_reads = set()      # call sites of the descriptor read whose `api` is compared at the gate
-    for phase, cs in phase_calls.items():
-        if len(cs) != 1:
-            rep.unproven('R2', 'dispatch/' + phase, w(rt), '%d call sites of the %s phase in libcnb_runtime' % (len(cs), phase))
+    # Every exit the runtime can perform outside the phases either carries a constant error code or forwards the phase
+    # result.  Exits are taken from the interprocedural MAY effects of libcnb_runtime (so an exit moved into a private
+    # gate function or into a handler closure is the same exit), and the exit value is decomposed into an arm table:
+    # `match r {Ok(c) => exit(c), Err(e) => {on_error(e); exit(1)}}`, `let code = match r {Ok(c) => c, Err(e) =>
+    # {on_error(e); 1}}; exit(code)`, `exit(r.unwrap_or_else(|e| {on_error(e); 1}))` and `exit(run(buildpack))` with a
+    # private `run` that returns the code where the others exit are the same rows to the rule.
+    from .lib.tables import arm_defs, phi_local_of
+    from .lib.effects import guards_of
+    # (the phase result is also what a private function returns that does nothing but hand it on: `match run(buildpack) {
+    # Ok(code) => exit(code), Err(e) => ..}` with `fn run(..) -> Result<i32, _> { gate; match name { "detect" => detect(..), .. } }`)
+    _nf = {}
+
+    def nf(v):
+        if v not in _nf:
+            _nf[v] = sl.inline_deep(v, keep=(RD, RB))
+        return _nf[v]
+    is_phase = lambda y: strip(nf(y))[0] == 'call' and strip(nf(y))[1] in (RD, RB)
+    is_phase_result = lambda r: r[0] in ('call', 'phi') and strip(nf(r))[0] in ('call', 'phi') and all(y[0] == 'call' and y[1] in (RD, RB) for y in alts(strip(nf(r))))
+    mentions_phase = lambda v: v is not None and any(x[0] == 'call' and x[1] in (RD, RB) for x in walk(nf(v)))
+    err_phase = lambda cd: cd.kind == 'variant' and cd.outcome == frozenset({'Err'}) and mentions_phase(cd.subject)
+    may_rt = E_rt.expand(rt, 'may')
+    rows = []          # Row: exit call, kind 'const'|'result'|'other', value, conds at the defining site, handler closure | None, site, effect
+    seen_exit = set()
+    for xe in may_rt:
+        if xe.kind != 'EXIT' or xe.call is None or not xe.call.is_('std::process::exit'):
             continue
-        c = cs[0]
-        # decisions that hold at the phase call: those of libcnb_runtime itself plus what dominating gate functions
-        # (`exit_unless_..()`) guarantee when they return.  Equalities are read in normal form: `a == b` taken or
-        # `a != b` not taken, either operand order, private helpers inlined, `x.unwrap_or_else(<handler that never
-        # returns>)` == the Ok payload of x.
-        conds = conditions_gated(prog, rt, c.bb, sl)
+        c = xe.call
+        v = strip(xe.path)
+        if id(c) not in seen_exit:
+            rep.check(c.target is None, 'R4', 'runtime/exit-diverges/%s' % (v[1] if v[0] == 'const' else 'result'), c.where(), 'exit does not return', 'exit call has a successor')
+        seen_exit.add(id(c))
+        if c.fn.path == rt.path:
+            loc = phi_local_of(rt, c.args[0])
+            defs = arm_defs(rt, loc, sl) if loc is not None else [(c.bb, xe.path, conditions(rt, c.bb, sl))]
+            for bi, dv, conds in defs:
+                conds = conds + [cd for cd in conditions(rt, c.bb, sl) if cd not in conds]
+                for kind, a, cds, via, site in H.code_rows(prog, sl, rt, dv, conds, is_phase_result):
+                    rows.append(Row(c, kind, a, cds, via, site or (rt, c.bb), xe))
+        else:
+            # an exit inside a private helper / closure: its code in libcnb_runtime's terms, under the decisions of
+            # every level of the call chain and those the running combinator implies
+            rep.analysed(c.fn)
+            conds = [cd for cd, _, _ in guards_of(E_rt, xe)]
+            conds += [H.SynthCond(c.fn, x[1], 'Err') for x in xe.implied if x[0] == 'unwrap_err']
+            for kind, a, cds, via, site in H.code_rows(prog, sl, c.fn, xe.path, conds, is_phase_result):
+                rows.append(Row(c, kind, a, cds, via, site or (c.fn, c.bb), xe))
+    for r in rows:
+        rep.analysed(r.site[0])
+    # ---- R1 / R2 --------------------------------------------------------------------------------------
+    # the calls into the phases are PHASE effects of libcnb_runtime: wherever the dispatch was moved to (libcnb_runtime
+    # itself, or a private function that returns the exit code to it), the call is judged in its own function `host` under
+    # the decisions of every level of the call chain that leads there, parameters read as what the chain passes
+    phase_effs = {'detect': [e for e in may_rt if e.kind == 'PHASE' and e.call is not None and e.call.name == RD],
+                  'build': [e for e in may_rt if e.kind == 'PHASE' and e.call is not None and e.call.name == RB]}
+    phase_calls = {ph: [e.call for e in es] for ph, es in phase_effs.items()}
+    gate_reads = set()      # call sites of the descriptor read whose `api` is compared at the gate
+    for phase, es in phase_effs.items():
+        if len(es) != 1:
+            # (one way into the phase: one call site, reached through one chain)
+            rep.unproven('R2', 'dispatch/' + phase, w(rt), '%d call sites of the %s phase in libcnb_runtime' % (len(es), phase))
+            continue
+        pe = es[0]
+        c = pe.call
+        host = c.fn
+        rep.analysed(host)
+
+        def in_entry_terms(cds, m):
+            m = {k: x for k, x in (m or {}).items() if k != '__repl__'}
+            return [H.SubstCond(cd, m, sl) for cd in cds] if m else list(cds)
+        # decisions that hold at the phase call: those of its function (and of the callers the chain goes through) plus what
+        # dominating gate functions (`exit_unless_..()`) guarantee when they return.  Equalities are read in normal form:
+        # `a == b` taken or `a != b` not taken, either operand order, private helpers inlined, `x.unwrap_or_else(<handler that
+        # never returns>)` == the Ok payload of x.
+        conds = in_entry_terms(conditions_gated(prog, host, c.bb, sl), pe.mapping)
+        for l in pe.chain:
+            lc = getattr(l, 'call', l)
+            conds += in_entry_terms(conditions_gated(prog, lc.fn, lc.bb, sl), getattr(l, 'mapping', None))
         # ... plus what a private function decided before it returned the variant the phase call is matched on
         # (`match Invocation::from_args(argv) { Detect(a) => detect(a), .. }`: from_args only builds Detect under name == "detect")
         conds = conds + [x for cd in conds for x in H.implied_by_variant(prog, sl, cd)]
@@ -203,7 +291,8 @@ def run(ctx, rep):
             rep.check(reached and not extra and once, 'R2', 'dispatch/%s/name-exact' % phase, c.where(), 'the compared name is exactly the final component of argv[0]',
                       'the executable name is transformed before it is compared with "%s": %s' % (phase, [n.rsplit('::', 2)[-1] for n in (extra or names)]))
         # argument value: parse(args).unwrap_or_else(diverging closure)
-        av = strip(sl.operand(rt, c.args[1]))
+        arg_of = lambda op: E_rt.subst(sl.operand(host, op), {k: x for k, x in (pe.mapping or {}).items() if k != '__repl__'})
+        av = strip(arg_of(c.args[1]))
         parse = 'libcnb::runtime::%sArgs::parse' % phase.capitalize()
         good = av[0] == 'call' and av[1].endswith('unwrap_or_else') and strip(av[2][0])[0] == 'call' and strip(av[2][0])[1] == parse
         cl = strip(av[2][1]) if good else None
@@ -211,16 +300,26 @@ def run(ctx, rep):
         if not good and av[0] == 'call' and av[1] == parse:
             # `let Ok(args) = X::parse(..) else { usage; exit(..) }` / match with a diverging Err arm: the phase call sits
             # on the Ok side of the decision on parse's result, and the other side never returns nor reaches a phase
-            okc = [cd for cd in conditions(rt, c.bb, sl) if cd.kind == 'variant' and cd.outcome == frozenset({'Ok'})
+            okc = [cd for cd in conditions(host, c.bb, sl) if cd.kind == 'variant' and cd.outcome == frozenset({'Ok'})
                    and strip(cd.subject)[0] == 'call' and strip(cd.subject)[1] == parse]
             if okc:
                 cd = okc[-1]
-                others = [t for t in rt.succs(cd.sw_bb) if t != cd.target]
+                others = [t for t in host.succs(cd.sw_bb) if t != cd.target]
                 reach = set()
                 for t in others:
-                    reach |= rt.reachable(t)
-                escapes = [b for b in reach if b in rt.return_blocks() or any(pc.bb == b for pcs in phase_calls.values() for pc in pcs)]
-                exits = [(x, v) for x, v in exit_effects(prog, sl, rt) if x.bb in reach]
+                    reach |= host.reachable(t)
+                # the failure side ends the process with an error code: it reaches no phase, libcnb_runtime does not return
+                # from there, and the ways out are exits — in place, or (dispatch in a private function whose result is handed
+                # to exit) returns whose value is an exit row chosen on this side of the decision
+                escapes = [b for b in reach if (host.path == rt.path and b in rt.return_blocks()) or any(pc.bb == b and pc.fn.path == host.path for pcs in phase_calls.values() for pc in pcs)]
+                on_err_side = lambda r: r.site[0].path == host.path and r.site[1] in reach and \
+                    any(x.kind == 'variant' and x.outcome == frozenset({'Err'}) and x.subject is not None and strip(x.subject)[0] == 'call' and strip(x.subject)[1] == parse and strip(x.subject)[3:] == strip(cd.subject)[3:] for x in r.conds)
+                exits = [(r.exit, r.value) for r in rows if on_err_side(r)]
+                if host.path != rt.path:
+                    # every way the host returns from this side is one of those rows
+                    rets = {d[1] for d in host.whole_defs(0) if d[1] in reach}
+                    if not rets <= {r.site[1] for r in rows if on_err_side(r)} or host.partial_defs(0):
+                        exits = []
                 good = div = bool(others) and not escapes and bool(exits)
                 if good:
                     rep.check(all(bad_code(v) for _, v in exits), 'R3', 'args/%s/exit' % phase, c.where(), 'usage error exits with %s' % [v[1] for _, v in exits],
@@ -231,7 +330,7 @@ def run(ctx, rep):
             # general form: in normal form (helpers inlined, variant constructors read as literals, `x.unwrap_or_else(<handler
             # that never returns>)` = the payload of x) the argument IS the Ok payload of parse(..), and a failure of that
             # parse flows — through Err-propagating adapters / helper returns only — into such a handler
-            av0 = sl.operand(rt, c.args[1])
+            av0 = arg_of(c.args[1])
             nv = H.norm_pruned(prog, sl, av0, keep=(parse,))
             pc0 = strip(nv)
             if nv[0] == 'unwrap' and pc0[0] == 'call' and pc0[1] == parse:
@@ -303,7 +402,8 @@ def run(ctx, rep):
             return v[0] == 'call' and v[1] == 'std::env::var' and bool(v[2]) and strip(v[2][0]) == ('const', 'CNB_BUILDPACK_DIR')
         shape = len(own) == 1 and own[0].kind == 'READ' and bool(reads) and all(e.kind == 'READ' for _, e in reads) \
             and {ent.path for ent, _ in reads} == {rt.path, rd.path, rb.path}
-        cps = [L.comps(H.norm(prog, sl, e.path), is_bpdir) for _, e in reads] if shape else []
+        pp = H.path_pushes(prog, sl, [rt, rd, rb, rdesc])       # `p = dir.to_path_buf(); p.push(name)` is `dir.join(name)`
+        cps = [L.comps(pp.join_form(H.norm(prog, sl, e.path)), is_bpdir) for _, e in reads] if shape else []
         seen_as = [(e.kind, vstr(sl.inline_deep(e.path))[:70] if e.path else '') for e in (own + [e for _, e in reads])[:4]]
         if shape and any(c is None for c in cps):
             bad = next(e for (_, e), c in zip(reads, cps) if c is None)
@@ -341,55 +441,23 @@ def run(ctx, rep):
                 rep.unproven('R3', 'argmap/%s/%s' % (phase, fld), w(pf), 'cannot tell which argument becomes %s: %s' % (fld, vstr(fv.get(fld, ('unknown',)))[:100]))
             else:
                 rep.check(got == k, 'R3', 'argmap/%s/%s' % (phase, fld), w(pf), '%s <- argv[%d]' % (fld, k), '%s is taken from argv[%d], the command line puts it at position %d' % (fld, got, k))
-    # Every exit the runtime can perform outside the phases either carries a constant error code or forwards the phase
-    # result.  Exits are taken from the interprocedural MAY effects of libcnb_runtime (so an exit moved into a private
-    # gate function or into a handler closure is the same exit), and the exit value is decomposed into an arm table:
-    # `match r {Ok(c) => exit(c), Err(e) => {on_error(e); exit(1)}}`, `let code = match r {Ok(c) => c, Err(e) =>
-    # {on_error(e); 1}}; exit(code)` and `exit(r.unwrap_or_else(|e| {on_error(e); 1}))` are the same rows to the rule.
-    from .lib.tables import arm_defs, phi_local_of
-    from .lib.effects import guards_of
-    is_phase = lambda y: strip(y)[0] == 'call' and strip(y)[1] in (RD, RB)
-    is_phase_result = lambda r: r[0] in ('call', 'phi') and all(y[0] == 'call' and y[1] in (RD, RB) for y in alts(r))
-    mentions_phase = lambda v: v is not None and any(x[0] == 'call' and x[1] in (RD, RB) for x in walk(v))
-    err_phase = lambda cd: cd.kind == 'variant' and cd.outcome == frozenset({'Err'}) and mentions_phase(cd.subject)
-    may_rt = E_rt.expand(rt, 'may')
-    rows = []          # (exit call, kind 'const'|'result'|'other', value, conds at the defining site, handler closure | None)
-    seen_exit = set()
-    for xe in may_rt:
-        if xe.kind != 'EXIT' or xe.call is None or not xe.call.is_('std::process::exit'):
-            continue
-        c = xe.call
-        v = strip(xe.path)
-        if id(c) not in seen_exit:
-            rep.check(c.target is None, 'R4', 'runtime/exit-diverges/%s' % (v[1] if v[0] == 'const' else 'result'), c.where(), 'exit does not return', 'exit call has a successor')
-        seen_exit.add(id(c))
-        if c.fn.path == rt.path:
-            loc = phi_local_of(rt, c.args[0])
-            defs = arm_defs(rt, loc, sl) if loc is not None else [(c.bb, v, conditions(rt, c.bb, sl))]
-            for bi, dv, conds in defs:
-                conds = conds + [cd for cd in conditions(rt, c.bb, sl) if cd not in conds]
-                for kind, a, cds, via in H.code_rows(prog, sl, rt, dv, conds, is_phase_result):
-                    rows.append((c, kind, a, cds, via))
-        else:
-            # an exit inside a private helper / closure: its code in libcnb_runtime's terms, under the decisions of
-            # every level of the call chain and those the running combinator implies
-            rep.analysed(c.fn)
-            conds = [cd for cd, _, _ in guards_of(E_rt, xe)]
-            conds += [H.SynthCond(c.fn, x[1], 'Err') for x in xe.implied if x[0] == 'unwrap_err']
-            for kind, a, cds, via in H.code_rows(prog, sl, c.fn, xe.path, conds, is_phase_result):
-                rows.append((c, kind, a, cds, via))
     rep.check(bool(rows), 'R4', 'runtime/exits', w(rt), 'libcnb_runtime ends in exit calls', 'no exit call found among the effects of libcnb_runtime')
-    for c, kind, a, conds, via in rows:
-        if kind == 'const':
-            rep.check(bad_code(a), 'R4', 'runtime/exit-const/%s' % a[1], c.where(), 'error exit code %s' % a[1], 'constant exit code %s is 0 or 100 on an error arm' % a[1])
-        elif kind == 'other':
-            rep.unproven('R4', 'runtime/exit-other', c.where(), 'exit code of unknown origin: %s' % vstr(a)[:100])
-    res_rows = [r for r in rows if r[1] == 'result']
-    rep.check(len({id(r[0]) for r in res_rows}) == 1, 'R4', 'runtime/exit-result/count', w(rt), 'one exit(code) forwarding the phase result', '%d exits forward a phase result' % len({id(r[0]) for r in res_rows}))
-    for c, kind, a, conds, via in res_rows[:1]:
+    # ... and in nothing else: returning from libcnb_runtime hands control back to `main`, which ends the process with status 0
+    # whatever happened (wrong executable name, usage error, failed phase)
+    back = H.can_return(prog, rt)
+    rep.check(not back, 'R4', 'runtime/returns-normally', w(rt), 'libcnb_runtime never returns: every path ends in exit',
+              'libcnb_runtime can return to its caller (the process then exits with status 0) at bb%s' % back[:3])
+    for r in rows:
+        if r.kind == 'const':
+            rep.check(bad_code(r.value), 'R4', 'runtime/exit-const/%s' % r.value[1], r.exit.where(), 'error exit code %s' % r.value[1], 'constant exit code %s is 0 or 100 on an error arm' % r.value[1])
+        elif r.kind == 'other':
+            rep.unproven('R4', 'runtime/exit-other', r.exit.where(), 'exit code of unknown origin: %s' % vstr(r.value)[:100])
+    res_rows = [r for r in rows if r.kind == 'result']
+    rep.check(len({id(r.exit) for r in res_rows}) == 1 and len({(r.site[0].path, r.site[1]) for r in res_rows}) == 1, 'R4', 'runtime/exit-result/count', w(rt), 'one exit(code) forwarding the phase result', '%d exits forward a phase result' % len({(id(r.exit), r.site[0].path, r.site[1]) for r in res_rows}))
+    for r in res_rows[:1]:
         okc = any(cd.kind == 'variant' and cd.outcome == frozenset({'Ok'}) and cd.enum == 'std::result::Result' and
-                  any(x[0] == 'call' and x[1] in (RD, RB) for x in walk(cd.subject)) for cd in conds)
-        rep.check(okc, 'R4', 'runtime/exit-result', c.where(), 'Ok(code) => exit(code)', 'the phase result is forwarded as exit code outside the Ok arm')
+                  mentions_phase(cd.subject) for cd in r.conds)
+        rep.check(okc, 'R4', 'runtime/exit-result', r.exit.where(), 'Ok(code) => exit(code)', 'the phase result is forwarded as exit code outside the Ok arm')
     # on_error: one reachable call (an effect of libcnb_runtime, wherever it was moved to), with the phase error, only on
     # Err, followed by an error exit that cannot be reached from the Err side without it
     oe = [e for e in may_rt if e.kind == 'CALLBACK' and e.call is not None and e.call.decl == ON_ERROR]
@@ -405,28 +473,45 @@ def run(ctx, rep):
         levels = list(e.chain) + [c]
         e_args, e_implied = H.err_closure_payload(E_rt, e)
         ev = strip(e_args[1]) if len(e_args) > 1 else ('unknown',)
-        ok = all(a[0] == 'unwrap_err' and all(is_phase(y) for y in alts(a[1])) for a in alts(ev)) and not any(l.fn.in_loop(l.bb) for l in levels)
+        ok = all(a[0] == 'unwrap_err' and is_phase_result(a[1]) for a in alts(ev)) and not any(l.fn.in_loop(l.bb) for l in levels)
         # "only on Err": a decision on the phase result around the call (at any level of the chain), or the call sits in
         # the closure a Result combinator runs with the Err payload of the phase result
         implied_err = any(x[0] == 'unwrap_err' and is_phase_result(x[1]) for x in e_implied)
         okc = any(err_phase(cd) or (cd.kind == 'variant' and cd.outcome == frozenset({'Err'}) and mentions_phase(subj)) for cd, _, subj in guards_of(E_rt, e)) or implied_err
-        # after on_error the process exits with an error code: every exit reachable from on_error gets, on the Err arm,
-        # a constant error code, and on_error cannot be bypassed on the way from the Err arm to that exit
+        # after on_error the process exits with an error code: every way the process ends on the Err side of the phase result
+        # carries a constant error code and lies behind on_error.  The place of a row in on_error's function `of` is where
+        # its code was chosen there (the exit / the `return CODE`), or the call in `of` the exit is reached through.
+        def anchor(r):
+            if r.site[0].path == of.path:
+                return r.site[1]
+            for l in list(r.eff.chain) + [r.eff.call]:
+                if l.fn.path == of.path:
+                    return l.bb
+            return None
         reach = of.reachable(c.bb)
-        direct = [r for r in rows if r[0].fn.path == of.path and r[0].bb in reach and any(err_phase(cd) for cd in r[3])]
-        handled = [r for r in rows if r[4] is not None and any(l.fn.path == r[4].path for l in levels) and any(err_phase(cd) for cd in r[3])]
+        on_err = [r for r in rows if any(err_phase(cd) for cd in r.conds)]
+        direct = [r for r in on_err if r.via is None and anchor(r) is not None and anchor(r) in reach]
+        handled = [r for r in on_err if r.via is not None and any(l.fn.path == r.via.path for l in levels)]
         err_rows = direct + handled
-        good_after = bool(err_rows) and all(r[1] == 'const' and bad_code(r[2]) for r in err_rows)
+        bypass = [r for r in on_err if not any(r is x for x in err_rows)]
+        good_after = bool(err_rows) and all(r.kind == 'const' and bad_code(r.value) for r in err_rows)
         conds = conditions(of, c.bb, sl)
         err_arm = [cd.target for cd in conds if cd.kind == 'variant' and cd.outcome == frozenset({'Err'})]
         if not err_arm and implied_err and of.kind == 'Closure':
             err_arm = [0]        # the closure body *is* the Err arm
-        not_bypassed = bool(err_rows) and (not direct or (bool(err_arm) and all(must_pass(of, err_arm[-1], r[0].bb, c.bb) for r in direct)))
+        if not err_arm and okc and not any(cd.fn.path == of.path for cd, _, _ in guards_of(E_rt, e) if err_phase(cd)):
+            err_arm = [0]        # the Err decision was taken by a caller: the whole function is the Err arm
+        not_bypassed = bool(err_rows) and (not direct or (bool(err_arm) and all(anchor(r) == c.bb or must_pass(of, err_arm[-1], anchor(r), c.bb) for r in direct)))
         for r in handled:
             # the handler closure returns the code: on_error is among the effects on every way to each of its returns
-            not_bypassed = not_bypassed and any(m.call is c for m in E_rt.expand(r[4], 'must'))
+            not_bypassed = not_bypassed and any(m.call is c for m in E_rt.expand(r.via, 'must'))
         rep.check(ok and okc and good_after and not_bypassed, 'R4', 'runtime/on_error', c.where(),
                   'Err(e) => on_error(e) once, then exit with an error code', 'error path does not call on_error(e) exactly once followed by a non-zero, non-100 exit')
+        # ... and there is no other way out of the Err side: an exit (or returned code) under "the phase failed" that is not
+        # behind the handler call ends the process without the buildpack having seen its error
+        rep.check(not bypass, 'R4', 'runtime/on_error/always', bypass[0].exit.where() if bypass else c.where(), 'every exit on the Err side of the phase result lies behind on_error',
+                  'a failed phase can end the process without on_error: exit code %s chosen at %s bb%s' % (
+                      vstr(bypass[0].value)[:30], bypass[0].site[0].path.split('::')[-1], bypass[0].site[1]) if bypass else '')
     # ---- R5 --------------------------------------------------------------------------------------------
     want = {'GENERIC_SUCCESS': lambda v: v == 0, 'DETECT_DETECTION_PASSED': lambda v: v == 0, 'DETECT_DETECTION_FAILED': lambda v: v == 100}
     n = 0
@@ -594,8 +679,9 @@ def run(ctx, rep):
                         return True
             return False
         known_writes = []
+        pp = H.path_pushes(prog, sl, [rb])       # `p = dir.to_path_buf(); p.push(name)` is `dir.join(name)`
         for fname, fld in (('launch.toml', 'launch'), ('store.toml', 'store')):
-            es = [e for e in o.may if e.kind == 'WRITE' and L.comps(e.path, ld) == (fname,)]
+            es = [e for e in o.may if e.kind == 'WRITE' and L.comps(pp.join_form(e.path) if e.path is not None else None, ld) == (fname,)]
             if len(es) != 1:
                 rep.violated('R4', 'build/' + fname, w(rb), '%d writes of %s' % (len(es), fname))
                 continue
